@@ -207,9 +207,9 @@ class StepHooks(LibHooks):
 
     # own record of the state-array cells written during the iteration (the J bookkeeping of LibHooks resets its own)
     def on_store(self, st, r, off, size, val, ins):
-        if self.api_mode and st.tags.get('api_first_done') and r.name in ('STATE', 'P') and st.top.fn.name != STEP_FN and \
+        if self.api_mode and 'step_base' in st.tags and r.name in ('STATE', 'P') and st.top.fn.name != STEP_FN and \
                 not any(fr.fn.name == STEP_FN for fr in st.frames[1:]):
-            # the public function itself writes parser state after its loop call: which field, and does the value change?
+            # the public function itself writes parser state (not through the token loop): which field, and does the value change?
             lay = self.lay
             field = None
             if r.name == 'P':
@@ -225,7 +225,7 @@ class StepHooks(LibHooks):
             old = (st.cells(r.name) or {}).get((off.key(), size))
             same = old is not None and repr(old[2]) == repr(val)
             if not same:
-                self.post_writes.append((field or '%s+%r' % (r.name, off), ins.loc()))
+                self.post_writes.append((field or '%s+%r' % (r.name, off), ins.loc(), 'after' if st.tags.get('api_first_done') else 'outside'))
         LibHooks.on_store(self, st, r, off, size, val, ins)
         if r.name == 'STATE' and size is not None and 'step_base' in st.tags:
             st.tags['step_dirty'] = st.tags.get('step_dirty', frozenset()) | {(off.key(), size)}
